@@ -1152,7 +1152,6 @@ def respell(text, unit, per_px):
     return ''.join(out_a) + text[last:], ''.join(out_b) + text[last:]
 
 
-UNCOMPUTED_GRADIENT_PROPERTIES = ('border-image-source', 'mask-border-source')
 COMPUTED_PRE = 'border-style: solid; outline-style: solid; column-rule-style: solid; position: relative; display: block'
 
 
@@ -1190,9 +1189,7 @@ def sec_computed_units(run):
             continue
         templates = length_templates(name)
         for text in templates:
-            if name in UNCOMPUTED_GRADIENT_PROPERTIES and 'gradient(' in text:
-                known += 1        # known finding border-image-gradient-lengths-not-computed
-                continue
+
             units = UNIT_SPELLINGS_EXACT if run.thorough else run.rng.sample(UNIT_SPELLINGS_EXACT, 2)
             for unit, per_px in units:
                 pair = respell(text, unit, per_px)
@@ -1325,6 +1322,84 @@ def sec_tracks(run):
                       *(['repeat-in-repeat'] if text.count('repeat(') > 1 else [])])
 
 
+# ------------------------------------------------------------ gradient images: the computers, by direct call
+
+def gimage_wire(pair, q):
+    """One `(type, value)` pair of an image value as the wire form of `Wp.Grad07.Image`."""
+    kind, value = pair
+
+    def dim(d):
+        return ['d', q(d.value), enc(d.unit) if d.unit is not None else 'none']
+    if kind == 'linear-gradient':
+        return ['linear', [dim(p) if p is not None else 'none' for p in value.stop_positions]]
+    if kind == 'radial-gradient':
+        _, pos_x, _, pos_y = value.center
+        size = [dim(d) for d in value.size] if value.size_type == 'explicit' else 'none'
+        return ['radial', [dim(p) if p is not None else 'none' for p in value.stop_positions],
+                [dim(pos_x), dim(pos_y)], size]
+    return ['other', enc(str(kind))]
+
+
+def gradient_text(rng):
+    length = lambda: rng.choice(TRACK_LENGTHS)       # noqa: E731
+    stop = lambda: rng.choice(['red', 'blue', f'red {length()}', f'blue {length()}', 'green 50%'])    # noqa: E731
+    stops = ', '.join(stop() for _ in range(rng.choice([2, 2, 3])))
+    r = rng.random()
+    if r < 0.4:
+        return f'{rng.choice(["", "repeating-"])}linear-gradient({rng.choice(["", "to right, ", "45deg, "])}{stops})'
+    if r < 0.9:
+        shape = rng.choice(['', 'circle ', f'{length()} {length()} ', 'ellipse ', 'closest-side '])
+        at = rng.choice(['', f'at {length()} {length()}', 'at center', f'at left {length()} top {length()}', 'at 25% 75%'])
+        head = f'{shape}{at}'.strip()
+        return f'{rng.choice(["", "repeating-"])}radial-gradient({head + ", " if head else ""}{stops})'
+    return rng.choice(['none', 'url(a.png)'])
+
+
+def sec_gradients(run):
+    from weasyprint.css import computed_values
+    _, _, _, _, properties = real.mods()
+    computers, valued = c07_numeric.runtime_image_computers()
+    sec = run.section('image-computer', 'every property whose validator takes a gradient (runtime probe) and every '
+                      'property bound to the computers background_image / image: the real registered computer function '
+                      'by direct call on the value the real validator builds from generated linear / radial gradients '
+                      '(stops, centre, explicit size in every unit) vs the model; a property without computer keeps its '
+                      'value in the model too; non-trivial = a length that is not in px')
+    names = sorted(set(valued) | {n for n, _ in computers})
+    for name in names:
+        key = name.replace('-', '_')
+        for _ in range(run.n(60, 1200)):
+            layered = name == 'background-image'
+            texts = [gradient_text(run.rng) for _ in range(run.rng.choice([1, 2, 3]) if layered else 1)]
+            text = ', '.join(texts)
+            fn = properties.PROPERTIES[name]
+            try:
+                value = fn(tokens_of(text), BASE_URL) if fn.wants_base_url else fn(tokens_of(text))
+            except Exception:  # noqa: BLE001 - the funnel section reports crashing validators
+                continue
+            if value is None:
+                continue
+            pairs = list(value) if layered else [value]
+            try:
+                before = [gimage_wire(p, decimal) for p in pairs]
+            except Exception:  # noqa: BLE001 - a value shape this wire form does not know
+                continue
+            fs, rfs = Fraction(run.rng.choice([16, 10, 20])), Fraction(run.rng.choice([16, 12]))
+            ex, ch = Fraction(run.rng.choice([1, 2]), 4), Fraction(1, 2)
+            style = font_style_for(fs, rfs, ex, ch)
+            computer = computed_values.COMPUTER_FUNCTIONS.get(key)
+            try:
+                out = computer(style, name, value) if computer is not None else value
+                out_pairs = list(out) if layered else [out]
+                impl = '(' + sx.line(*[gimage_wire(p, Fraction) for p in out_pairs]) + ')'
+            except Exception as exc:  # noqa: BLE001
+                impl = real.fail_atom(exc)
+            import re
+            sec.add(sx.line('image-computer', fs, rfs, ex, ch, enc(name), before), impl,
+                    meta={'name': name, 'css': text}, nontrivial=bool(re.search(r'\d(in|pt|pc|cm|mm|q|em|rem|ex|ch)\b', text)),
+                    tags=[name, 'radial' if 'radial' in text else 'linear' if 'linear' in text else 'other'])
+    run.extra['image_computers'] = {'computers': dict(computers), 'gradient_valued': valued}
+
+
 def judge_tracks(meta):
     """A computed track list holds no absolute or font-relative unit any more (layout only takes px, %, fr), and the
     same text with its lengths respelled in px computes to the same list."""
@@ -1340,8 +1415,6 @@ def judge_tracks(meta):
 
 def judge_computed_units(meta):
     name, a, b = meta['name'], meta['px'], meta['other']
-    if name in UNCOMPUTED_GRADIENT_PROPERTIES and 'gradient(' in a:
-        return None      # known finding border-image-gradient-lengths-not-computed
     if G.call_validator(name, a)[0] != 'ok':
         return None
     if G.call_validator(name, b)[0] != 'ok':
@@ -3064,7 +3137,6 @@ def replay_border_image_gradient_lengths():
 
 
 FINDING_REPLAYS = {
-    'border-image-gradient-lengths-not-computed': replay_border_image_gradient_lengths,
     'css-wide-keyword-as-ident': replay_css_wide_as_ident,
     'var-fallback-commas-dropped': replay_var_fallback_commas,
 }
@@ -3098,6 +3170,9 @@ def replay_var_cycle_in_process():
 # is a disagreement of the `regressions` section, judged and reported as a VIOLATION (a fixed entry suppresses
 # nothing).  id -> (replay: True when the defect is there, commit, what fails)
 REGRESSIONS = {
+    'border-image-gradient-lengths-not-computed': (lambda: replay_border_image_gradient_lengths(), 'e161f80',
+                                                   'border-image-source: linear-gradient(red 1in, blue 2in) keeps its '
+                                                   'units (AssertionError in layout.percent.percentage)'),
     'flex-negative-factor-accepted': (lambda: replay_flex_negative_factor(), 'c151619',
                                       'flex-grow: 2; flex-grow: -1 keeps the negative factor (also flex-shrink: -0.5)'),
     'image-resolution-zero-division': (lambda: replay_image_resolution_zero(), 'd011d54',
@@ -3628,7 +3703,7 @@ def reference_substitution(tokens, env, depth):
 class C07(PropCheck):
     id = 'C07'
     extractors = (c07_tables.generate, c07_numeric.generate)
-    modules = ('WpModel.Props.C07', 'WpModel.Props.C07Tracks', 'WpModel.Props.C07Expanders', 'WpModel.Props.C07Var', 'WpModel.Props.C07Sheet',
+    modules = ('WpModel.Props.C07', 'WpModel.Props.C07Tracks', 'WpModel.Props.C07Gradient', 'WpModel.Props.C07Expanders', 'WpModel.Props.C07Var', 'WpModel.Props.C07Sheet',
                'WpModel.Props.C07Keywords', 'WpModel.Props.C07Descriptors', 'WpModel.Props.C07Numeric',
                'WpModel.Witness.C07')
     trusted_base = (
@@ -3678,6 +3753,7 @@ class C07(PropCheck):
         'length-flags': ['neg:True', 'neg:False', 'pct:True', 'pct:False', 'list:ok', 'list:invalid', 'list-n0', 'list-n1',
                          'list-n2', 'list-n3'],
         'track-size': ['auto', 'template', 'repeat-non-px'],
+        'image-computer': ['linear', 'radial', 'other', 'background-image', 'border-image-source', 'mask-border-source'],
         'computed-units': ['nested', 'flat'] + [f'unit:{u}' for u, _ in UNIT_SPELLINGS_EXACT],
         'pending-solve': ['valid-after-invalid', 'shorthand', 'longhand', 'warned'],
         'sheet-funnel': ['probe-imported', 'probe-ignored', 'rule:no-content', 'rule:font-face', 'rule:other-at',
@@ -3717,6 +3793,7 @@ class C07(PropCheck):
         sec_pending(run)
         sec_computed_units(run)
         sec_tracks(run)
+        sec_gradients(run)
         sec_pending_solve(run)
         sec_sheet(run)
         sec_keywords(run)
@@ -3771,7 +3848,7 @@ class C07(PropCheck):
             return judge_pending_solve(meta)
         if section == 'computed-units':
             return judge_computed_units(meta)
-        if section == 'track-size':
+        if section in ('track-size', 'image-computer'):
             return judge_tracks(meta)
         if section == 'validate-non-shorthand':
             _, _, _, expanders, properties = real.mods()
@@ -4052,7 +4129,9 @@ MANIFEST = {
             'takes one or two non-negative lengths and no percentage, the corner radii take percentages (flags '
             'regenerated by AST); flex-grow / flex-shrink >= 0; a kept image-resolution is positive, so the intrinsic '
             'size of a raster image is always defined; a computed grid track list holds px, %, fr only, at any depth of '
-            'minmax() / fit-content() / repeat() (track_size_all_px), equal absolute lengths are the same breadth.',
+            'minmax() / fit-content() / repeat() (track_size_all_px), equal absolute lengths are the same breadth; every '
+            'property whose validator takes a gradient has a gradient computer (decided on the runtime registries) and '
+            'its stops, radial centre and explicit size come out in px (gradient_property_all_px).',
     'note': 'Trusted: Lean kernel, py/extract/c07_tables.py and c07_numeric.py, the harness abstraction of tokens to '
             'the answers of the real single-token / slice validators. Partial: of the 133 validator functions only the 50 '
             'keyword-only properties, the 12 numeric single-token properties, get_length, get_resolution and '
